@@ -4615,11 +4615,13 @@ struct LoadOptionsRef<'a> {
 
 #[derive(Debug, Default)]
 struct PendingState<'a> {
-  deferred: HashMap<ModuleSpecifier, DeferredLoad>,
+  // insertion ordered so the order loads get issued in (and with it which
+  // referrer or version requirement comes first) is the same on every run
+  deferred: IndexMap<ModuleSpecifier, DeferredLoad>,
   pending: FuturesOrdered<PendingInfoFuture<'a>>,
   jsr: PendingJsrState,
   npm: PendingNpmState,
-  dynamic_branches: HashMap<ModuleSpecifier, PendingDynamicBranch>,
+  dynamic_branches: IndexMap<ModuleSpecifier, PendingDynamicBranch>,
 }
 
 #[derive(Debug, Clone, Copy, PartialEq, Eq)]
